@@ -922,6 +922,10 @@ func (d *jdec) decode(n *jnode, t types.Type, addr *value) {
 	t = types.Unalias(t)
 	// null
 	if n.k == jNull {
+		if isNamed(t, "encoding/json", "RawMessage") {
+			*addr = concreteBytes("null")
+			return
+		}
 		switch t.Underlying().(type) {
 		case *types.Pointer, *types.Map, *types.Slice, *types.Interface:
 			*addr = zero(t)
@@ -947,6 +951,10 @@ func (d *jdec) decode(n *jnode, t types.Type, addr *value) {
 			*addr = pv
 		}
 		d.decode(n, p.Elem(), pv)
+		return
+	}
+	if isNamed(t, "encoding/json", "RawMessage") {
+		*addr = n.bytesValue("")
 		return
 	}
 	if _, isIface := t.Underlying().(*types.Interface); !isIface {
@@ -1048,7 +1056,13 @@ func (d *jdec) decode(n *jnode, t types.Type, addr *value) {
 			if b, ok := u.Elem().Underlying().(*types.Basic); ok && b.Kind() == types.Uint8 {
 				s, ok := n.s.(string)
 				if !ok {
-					panic(engineErr("json: base64 of a symbolic string"))
+					// an arbitrary string either is not base64 (error) or decodes to some bytes
+					if X.choose("json-base64(symbolic)", 2) == 0 {
+						d.saveError(newErr(fr, "illegal base64 data at input byte 0"))
+						return
+					}
+					*addr = concreteBytes("sym")
+					return
 				}
 				raw, err := base64.StdEncoding.DecodeString(s)
 				if err != nil {
@@ -1269,9 +1283,9 @@ func numToFloat(num value) value {
 			f, _ := new(big.Float).SetInt(x.c).Float64()
 			return f
 		}
-		return symF64{"((_ to_fp 11 53) RNE (to_real " + x.t + "))"}
+		return intTermToFloat(x.t)
 	case symInt:
-		return symF64{"((_ to_fp 11 53) RNE (to_real " + x.t + "))"}
+		return intTermToFloat(x.t)
 	}
 	panic(engineErr(fmt.Sprintf("numToFloat %T", num)))
 }
@@ -1387,7 +1401,7 @@ func jsonMarshalValue(fr *frame, v value) (*jnode, iface) {
 func jsonUnmarshalInto(fr *frame, n *jnode, dst value, useNumber, disallow bool) iface {
 	it := dst.(iface)
 	if it.t == nil {
-		return jsonNamedErr(fr, "InvalidUnmarshalError", structure{makeReflectType(rtype{nil})})
+		return jsonNamedErr(fr, "InvalidUnmarshalError", structure{iface{}})
 	}
 	p, ok := it.t.Underlying().(*types.Pointer)
 	if !ok || it.v.(*value) == nil {
